@@ -34,10 +34,16 @@ Inductive rcase :=
    [final_list] is List(mask, include) of the subscription's own read options taken at the end *)
 | CaseCPull (writable : option (list fld)) (idf : option idf) (equiv : option eqv)
             (before : list fop) (ro : fro) (after : list fop) (codes : list Z)
+            (witness : list (string * Z))   (* last event time per id seen by a subscriber opened at creation *)
             (stream : list ochange) (final_list : list (string * fmsg))
 | CaseVPull (writable : option (list fld)) (initial : option fmsg) (equiv : option eqv)
             (before : list fvop) (ro : fro) (after : list fvop) (codes : list Z)
-            (stream : list ovchange) (final_get : option fmsg).
+            (witness : option Z)            (* time of the last event before subscribing, if any *)
+            (results : list (option fmsg))  (* value returned by each operation of [after] (successful Sets) *)
+            (stream : list ovchange) (final_get : option fmsg)
+(* C08 without a model: what a subscriber received (lossy delivery, or through a trait server) and
+   the listing taken with the same predicate once delivery had settled *)
+| CaseFold (what : string) (stream : list ochange) (final_list : list (string * fmsg)).
 
 (* ---------- instantiation of the abstract models ---------- *)
 Definition to_cop (w : option (list fld)) (op : fop) : cop fmsg fwriter (list fld) :=
@@ -249,13 +255,14 @@ Definition agrees (c : rcase) : bool :=
       let '(_, outs) := run_c i w c_init (map fst steps) in trace_matches outs (map snd steps)
   | CaseV w initial steps =>
       let '(_, outs) := run_v w (v_init fclock initial) (map fst steps) in vtrace_matches outs (map snd steps)
-  | CaseCPull w i e before ro after codes stream final =>
+  | CaseCPull w i e before ro after codes witness stream final =>
       let '(cs, s2) := model_cstream w i e before ro after in
       list_match cc_matches cs stream &&
       list_eqb kv_eqb (c_list fr_filter s2 (r_mask ro) (option_map interp_pred (r_include ro))) final
-  | CaseVPull w initial e before ro after codes stream final =>
+  | CaseVPull w initial e before ro after codes witness results stream final =>
       let '(vs, s2) := model_vstream w initial e before ro after in
       list_match vc_matches vs stream && ofm_eqb (v_get fr_filter s2 (r_mask ro)) final
+  | CaseFold _ _ _ => true      (* not modelled here (lossy merging is C09's model); judged by the oracle only *)
   end.
 
 (* successful writes among the operations issued after subscribing (codes observed by the writer;
@@ -277,8 +284,18 @@ Definition non_seed (l : list ochange) : Z := zlen (filter (fun o => negb (oc_se
    none for failed ones, per-id old/new chain, and the folded view is the final listing. *)
 Definition C04_ok (c : rcase) : bool :=
   match c with
-  | CaseCPull w i e before ro after codes stream final =>
+  | CaseCPull w i e before ro after codes witness stream final =>
       seeds_then_updates false stream &&
+      (* a seed carries the change time of the write that stored the item: the time its event carried *)
+      (match e with
+       | None => forallb (fun o => if oc_seed o then
+                                     match find (fun p => String.eqb (fst p) (oc_id o)) witness with
+                                     | Some p => oc_time o =? snd p
+                                     | None => true
+                                     end
+                                   else true) stream
+       | Some _ => true
+       end) &&
       (if r_updates_only ro then forallb (fun o => negb (oc_seed o)) stream else true) &&
       (match r_include ro, e with
        | None, None => (non_seed stream =? ok_writes after codes) &&
@@ -289,13 +306,30 @@ Definition C04_ok (c : rcase) : bool :=
        | None => if r_updates_only ro then true else same_map (fold_view (map to_cc stream)) final
        | Some _ => true
        end)
-  | CaseVPull w initial e before ro after codes stream final =>
+  | CaseVPull w initial e before ro after codes witness results stream final =>
       let seeds := filter ov_seed stream in
       let updates := filter (fun o => negb (ov_seed o)) stream in
       (zlen seeds <=? 1) && forallb ov_last seeds &&
       (match stream with o :: r => forallb (fun x => negb (ov_seed x)) r | [] => true end) &&
       forallb (fun o => negb (ov_last o)) updates &&
       (if r_updates_only ro then zlen seeds =? 0 else true) &&
+      (match e, witness, seeds with
+       | None, Some t, o :: _ => ov_time o =? t
+       | _, _, _ => true
+       end) &&
+      (* with an equivalence: delivered exactly when not equivalent to the last delivered value *)
+      (match e with
+       | Some ev =>
+           let committed := flat_map (fun r => match r with Some v => [match r_mask ro with Some k => fr_filter k v | None => v end] | None => [] end) results in
+           let fix dedupe (last : option fmsg) (vs : list fmsg) : list fmsg :=
+             match vs with
+             | [] => []
+             | v :: r => if interp_eqv ev last (Some v) then dedupe last r else v :: dedupe (Some v) r
+             end in
+           list_eqb fmsg_eqb (map ov_value updates)
+                    (dedupe (match seeds with o :: _ => Some (ov_value o) | [] => None end) committed)
+       | None => true
+       end) &&
       (match e with
        | None => (zlen updates =? ok_sets after codes) &&
                  (* the last delivered value is the final value *)
@@ -310,8 +344,9 @@ Definition C04_ok (c : rcase) : bool :=
 
 Definition C08_ok (c : rcase) : bool :=
   match c with
-  | CaseCPull w i None before ro after codes stream final =>
+  | CaseCPull w i None before ro after codes witness stream final =>
       if r_updates_only ro then true else same_map (fold_view (map to_cc stream)) final
+  | CaseFold _ stream final => same_map (fold_view (map to_cc stream)) final
   | _ => true
   end.
 
